@@ -189,6 +189,16 @@ errcode_t ext2fs_write_dir_block4(ext2_filsys fs, blk64_t block, void *buf, int 
 	p3_wdb++; p3_wdb_blk = block; p3_wdb_ino = ino; p3_wdb_ev = ++p3_ev;
 	return P3_ERR();
 }
+/* since the fix: commit that makes a re-created root / lost+found extent mapped, pass3.c maps the new block with
+ * ext2fs_bmap2(BMAP_SET) on file systems with the extents feature (statement about the mapping: units fscklpf/...) */
+unsigned int p3_bmap2, p3_bmap2_ev; ext2_ino_t p3_bmap2_ino; blk64_t p3_bmap2_blk;
+errcode_t ext2fs_bmap2(ext2_filsys fs, ext2_ino_t ino, struct ext2_inode *inode, char *block_buf, int bmap_flags,
+		       blk64_t block, int *ret_flags, blk64_t *phys_blk)
+{
+	(void) fs; (void) inode; (void) block_buf; (void) bmap_flags; (void) block; (void) ret_flags;
+	p3_bmap2++; p3_bmap2_ino = ino; p3_bmap2_blk = phys_blk ? *phys_blk : 0; p3_bmap2_ev = ++p3_ev;
+	return P3_ERR();
+}
 unsigned int p3_adi; ext2_ino_t p3_adi_ino, p3_adi_parent;
 void e2fsck_add_dir_info(e2fsck_t ctx, ext2_ino_t ino, ext2_ino_t parent)
 {
@@ -374,6 +384,7 @@ int e2fsck_dir_will_be_rehashed(e2fsck_t ctx, ext2_ino_t ino) { (void) ctx; (voi
 static void p3_world(void)
 {
 	p3_nchoice = p3_nlog = p3_ev = 0;
+	p3_bmap2 = 0; p3_bmap2_ev = 0; p3_bmap2_ino = 0; p3_bmap2_blk = 0;
 	p3_mark_used = p3_mark_dir = p3_mark_imap = p3_mark_found = p3_mark_bmap = p3_mark_other = 0;
 	p3_mark_found_blk = p3_mark_bmap_blk = 0;
 	p3_newblk_calls = 0; p3_newblk = 0; p3_iblk_set = 0; p3_iblk_val = 0;
